@@ -304,19 +304,6 @@ func runC19(r *Run) {
 		return
 	}
 
-	// concurrent scenarios (each in a child process): the two handler
-	// goroutines of a daemon parse prepare messages at the same time
-	nConc := 2
-	if r.Tier == "thorough" {
-		nConc = 5
-	}
-	for k := 0; k < nConc && len(r.Violations) < 20; k++ {
-		in := c19GenConc(r)
-		if cls := c19RunConc(r, in, "generated"); cls != nil {
-			c19EmitConc(r, in, cls)
-		}
-	}
-
 	for c := 0; c < r.N && len(r.Violations) < 20 && !decStalled(); c++ {
 		switch c % 4 {
 		case 0:
@@ -327,6 +314,20 @@ func runC19(r *Run) {
 			runStr(s, kind)
 		default:
 			c19GenMsg(r)
+		}
+	}
+
+	// concurrent scenarios (each in a child process), after the sequential
+	// cases so that a defect visible sequentially gets the small replay: the
+	// two handler goroutines of a daemon parse prepare messages at the same time
+	nConc := 2
+	if r.Tier == "thorough" {
+		nConc = 5
+	}
+	for k := 0; k < nConc && len(r.Violations) < 20; k++ {
+		in := c19GenConc(r)
+		if cls := c19RunConc(r, in, "generated"); cls != nil {
+			c19EmitConc(r, in, cls)
 		}
 	}
 }
